@@ -10,6 +10,14 @@ sys.path.insert(0, os.path.dirname(os.path.dirname(os.path.abspath(__file__))))
 from vf import core
 
 
+def _reset_ctx():
+    try:
+        from vf import util
+        util.reset_ctx()
+    except Exception:
+        pass
+
+
 def load_prop(prop):
     return importlib.import_module('vf.props.' + prop.lower())
 
@@ -34,6 +42,7 @@ def worker(argv):
         if budget and time.time() - t0 > budget:
             break
         core.PARTIAL = []
+        _reset_ctx()
         try:
             rs = mod.run_cell(cell, seed)
         except Exception:
@@ -49,6 +58,11 @@ def worker(argv):
     w.meta['skipped_for_budget'] = len(mine) - done
     if hasattr(mod, 'worker_meta'):
         w.meta.update(mod.worker_meta())
+    try:
+        from vf import util
+        w.meta['call_contexts'] = {k: util.CTX[k] for k in ('plain', 'no_grad', 'set_grad_enabled(False)')}
+    except Exception:
+        pass
     w.flush(True)
 
 
@@ -78,6 +92,12 @@ def main():
     cells = mod.cells(tier, seed)
     results, meta = core.run_sharded(prop, tier, seed, len(cells), mod.TIMEOUT[tier])
     extra = {'cells': len(cells), 'workers': meta}
+    ctxs = {}
+    for m in meta:
+        for k, v in (m.get('call_contexts') or {}).items():
+            ctxs[k] = ctxs.get(k, 0) + v
+    if ctxs:
+        extra['module_calls_by_autograd_context'] = ctxs
     if hasattr(mod, 'extra_cov'):
         extra.update(mod.extra_cov(results, meta))
     rc = core.finish(prop, tier, seed, results, t0, mod.RULE, mod.ASSUMPTIONS,
@@ -97,6 +117,7 @@ def replay(path):
     cell = d['result']['case'].get('cell', d['result']['case'])
     if hasattr(mod, 'worker_setup'):
         mod.worker_setup(d.get('tier', 'quick'), d.get('seed', 0))
+    _reset_ctx()
     rs = mod.run_cell(cell, d.get('seed', 0))
     bad = [r for r in rs if r['status'] == core.VIOLATED]
     for r in rs:
